@@ -439,11 +439,14 @@ def r5_close(report, repo):
       isinstance(n.ast, ast.Assign) or any(
           isinstance(s, ast.Call) and last_attr(s) == 'close_stream_transport'
           for s in n.subnodes()))]
-  ok = bool(eff) and all(gc.dominated_by_edge(
-      n, lambda s, l, d: s.kind == 'test' and l == 'F' and isinstance(
-          s.ast, ast.Compare) and dotted(s.ast.left) == 'self.closed_state' and
-      ends_with(dotted(s.ast.comparators[0]) or '', 'ClosedState.CLOSED'))
-                         for n in eff)
+  def closed_test(s, l, d):
+    if s.kind != 'test' or l != 'F':
+      return False
+    t = lib.unfold_self_predicate(repo, AP, ST, s.ast)  # self.is_closed()
+    return isinstance(t, ast.Compare) and len(t.ops) == 1 and isinstance(
+        t.ops[0], ast.Eq) and dotted(t.left) == 'self.closed_state' and \
+        ends_with(dotted(t.comparators[0]) or '', 'ClosedState.CLOSED')
+  ok = bool(eff) and all(gc.dominated_by_edge(n, closed_test) for n in eff)
   report.check(ok, rule, c.qualname, 'idempotent', c.node,
                'closing a CLOSED transport returns before doing anything')
 
